@@ -72,10 +72,18 @@ def cmd_run(sid, tier='quick'):
     rc, out = sh('git -C /repo apply %s' % os.path.join(d, 'patch.diff'))
     assert rc == 0, out
     t0 = time.time()
+    # the evidence file of the unchanged tree must not be replaced by the record of a run on a seeded change
+    ev = os.path.join(HERE, 'evidence', '%s.json' % prop)
+    ev_saved = open(ev).read() if os.path.exists(ev) else None
     try:
         rcc, outc = sh(['./check', prop, '--tier', tier], cwd=HERE, timeout=3000)
     finally:
         sh('git -C /repo checkout -- .')
+        if os.path.exists(ev):
+            shutil.copy(ev, os.path.join(d, 'evidence_of_last_run.json'))
+        if ev_saved is not None:
+            with open(ev, 'w') as f:
+                f.write(ev_saved)
     lines = [l for l in outc.splitlines() if l.startswith(('VIOLATION', 'BROKEN', 'KNOWN-FINDING', 'OK '))]
     sigs = []
     for l in lines:
